@@ -657,7 +657,9 @@ func UpdateIndexFromStdin() (*subprocess.Cmd, error) {
 func RecentBranches(since time.Time, includeRemoteBranches bool, onlyRemote string) ([]*Ref, error) {
 	cmd, err := gitNoLFS("for-each-ref",
 		`--sort=-committerdate`,
-		`--format=%(refname) %(objectname) %(committerdate:iso)`,
+		// an annotated tag has no committer date of its own: take the
+		// one of the commit it names (exactly one of the two is non-empty)
+		`--format=%(refname) %(objectname) %(committerdate:iso)%(*committerdate:iso)`,
 		"refs")
 	if err != nil {
 		return nil, errors.New(tr.Tr.Get("failed to find `git for-each-ref`: %v", err))
@@ -675,7 +677,8 @@ func RecentBranches(since time.Time, includeRemoteBranches bool, onlyRemote stri
 	// refs/heads/master f03686b324b29ff480591745dbfbbfa5e5ac1bd5 2015-08-19 16:50:37 +0100
 	// refs/remotes/origin/master ad3b29b773e46ad6870fdf08796c33d97190fe93 2015-08-13 16:50:37 +0100
 
-	// Output is ordered by latest commit date first, so we can stop at the threshold
+	// Output is ordered by latest commit date first, except for annotated
+	// tags (they sort as if they had no date), so every line is looked at
 	regex := regexp.MustCompile(fmt.Sprintf(`^(refs/[^/]+/\S+)\s+(%s)\s+(\d{4}-\d{2}-\d{2}\s+\d{2}\:\d{2}\:\d{2}\s+[\+\-]\d{4})`, ObjectIDRegex))
 	tracerx.Printf("RECENT: Getting refs >= %v", since)
 	var ret []*Ref
@@ -700,8 +703,7 @@ func RecentBranches(since time.Time, includeRemoteBranches bool, onlyRemote stri
 				return ret, err
 			}
 			if commitDate.Before(since) {
-				// the end
-				break
+				continue
 			}
 			tracerx.Printf("RECENT: %v (%v)", ref, commitDate)
 			ret = append(ret, &Ref{ref, reftype, sha})
